@@ -553,7 +553,7 @@ func arrEv(k arrKind, idx []int32, elts [][]byte, probes []int32) Ev {
 					if !ok {
 						return nil, false
 					}
-					return valueLE(v, k.w), true
+					return typedLE(k, v), true
 				}))
 			} else {
 				generic = append(generic, []interface{}{-9, []int{}})
@@ -571,10 +571,11 @@ func arrEv(k arrKind, idx []int32, elts [][]byte, probes []int32) Ev {
 			e["pan"] = "unmarshal typed: " + err.Error()
 			return
 		}
-		g2 := &array.Array{}
-		if len(idx) > 0 {
-			te, _ := encode.NewTypeEncoderEndian(firstElt(k, elts), binary.LittleEndian)
-			g2.EltEncoder = te
+		// the generic array as its public constructor makes it
+		g2, gerr2 := array.NewEmpty(zeroElt(k))
+		if gerr2 != nil {
+			e["pan"] = "NewEmpty: " + gerr2.Error()
+			return
 		}
 		if err := proto.Unmarshal(bs, g2); err != nil {
 			e["pan"] = "unmarshal generic: " + err.Error()
@@ -592,12 +593,26 @@ func arrEv(k arrKind, idx []int32, elts [][]byte, probes []int32) Ev {
 				if !ok {
 					return nil, false
 				}
-				return valueLE(v, k.w), true
+				return typedLE(k, v), true
 			}))
 		}
 		e["rttyped"], e["rtgeneric"] = compactObs(rtt), compactObs(rtg)
 	}()
 	return e
+}
+
+// zeroElt: the zero value of the element type of kind k
+func zeroElt(k arrKind) interface{} {
+	return reflect.Zero(reflect.TypeOf(genericElts(k, nil)).Elem()).Interface()
+}
+
+// typedLE: the little-endian bytes of v -- only if v has exactly the element type of the
+// array (a uint32 coming out of an int32 array is NOT the element)
+func typedLE(k arrKind, v interface{}) []byte {
+	if reflect.TypeOf(v) != reflect.TypeOf(zeroElt(k)) {
+		return []byte{0xba, 0xd0 | byte(k.w), 0x7e}
+	}
+	return valueLE(v, k.w)
 }
 
 func firstElt(k arrKind, elts [][]byte) interface{} {
